@@ -389,6 +389,74 @@ def exact_scalars(prog, cd, rep, rule="eq-exact-scalars"):
     rep.ok(rule, "no __eq__ compares a single stored number with a tolerance", nontrivial=True)
 
 
+def exact_arrays_normalised(prog, cd, rep, rule="eq-exact-arrays"):
+    """An array attribute that __eq__ compares exactly (np.array_equal) and the writer stores narrower than float64 (f4) must be
+    held in that stored type: otherwise a block built from a float64 array differs from the decode of its own encoding (0.35 is
+    not 0.35f).  Every constructor store of such an attribute converts to the codec's type (`np.array(x, dtype=..)`,
+    `np.asarray(x, dtype=..)`, `x.astype(..)`) or is on a path that has established `x.dtype == <that type>`."""
+    from ..facts import flat_facts, path_returns
+    from ..index import parse_dtype_node
+    from ..layout import Field, walk_terms
+    n = 0
+    for u in cd.units.values():
+        c = u.cls
+        f = c.get("__eq__") if c is not None else None
+        init = c.get("__init__") if c is not None else None
+        if f is None or init is None:
+            continue
+        sn = f.self_name or "self"
+        exact = set()
+        for call in [x for x in ast.walk(f.node) if isinstance(x, ast.Call) and norm(x.func) in ("np.array_equal", "numpy.array_equal")]:
+            for a in call.args[:2]:
+                if isinstance(a, ast.Attribute) and isinstance(a.value, ast.Name) and a.value.id == sn:
+                    exact.add(a.attr)
+        if not exact:
+            continue
+        stored = {}
+        for t in walk_terms(u.wterms):
+            if isinstance(t, Field) and t.role == "data" and t.value is not None and t.dt.kind == "f" and t.dt.size < 8:
+                v = t.value
+                if isinstance(v, ast.Attribute) and isinstance(v.value, ast.Name) and v.value.id == "self" and v.attr in exact:
+                    stored[v.attr] = t.dt
+        btype = lambda nm: (prog.codec(c.module, nm) or (None, None))[1]
+
+        def is_dt(node, dt):
+            try:
+                d = parse_dtype_node(node, btype=btype)
+            except AnalysisError:
+                if isinstance(node, ast.Attribute) and isinstance(node.value, ast.Name) and node.value.id in ("np", "numpy"):
+                    return {"float32": ("f", 4), "single": ("f", 4), "float16": ("f", 2)}.get(node.attr) == (dt.kind, dt.size)
+                return False
+            return d is not None and d.kind == dt.kind and d.size == dt.size and not d.shape
+        for attr, dt in stored.items():
+            sn_i = init.self_name or "self"
+            for pe in path_returns(init.node):
+                for e in pe.effects:
+                    if not (isinstance(e, ast.Assign) and len(e.targets) == 1 and isinstance(e.targets[0], ast.Attribute) and isinstance(e.targets[0].value, ast.Name)
+                            and e.targets[0].value.id == sn_i and e.targets[0].attr == attr):
+                        continue
+                    n += 1
+                    v = e.value
+                    good = False
+                    if isinstance(v, ast.Call) and norm(v.func) in ("np.array", "np.asarray", "numpy.array", "numpy.asarray", "np.ascontiguousarray", "np.fromiter"):
+                        d_ = next((k.value for k in v.keywords if k.arg == "dtype"), v.args[1] if len(v.args) > 1 else None)
+                        good = d_ is not None and is_dt(d_, dt)
+                    elif isinstance(v, ast.Call) and isinstance(v.func, ast.Attribute) and v.func.attr == "astype" and v.args:
+                        good = is_dt(v.args[0], dt)
+                    elif isinstance(v, ast.Name):
+                        for t_, pol in flat_facts(pe.guards):
+                            if pol and isinstance(t_, ast.Compare) and len(t_.ops) == 1 and isinstance(t_.ops[0], ast.Eq):
+                                for a_, b_ in ((t_.left, t_.comparators[0]), (t_.comparators[0], t_.left)):
+                                    if norm(a_) == f"{v.id}.dtype" and is_dt(b_, dt):
+                                        good = True
+                    if good:
+                        rep.ok(rule, f"{c.name}.__init__: `{attr}` is stored as {dt.kind}{dt.size}, the type it is written and exactly compared in", nontrivial=True)
+                    else:
+                        rep.fail(rule, c.module.path.name, f"{c.name}.__init__", e, f"`{norm(e)[:70]}` keeps `{attr}` in whatever type it was given, but it is written as {dt.kind}{dt.size} and compared with "
+                                 "np.array_equal: a block built from float64 values differs from the decode of its own encoding", construct=f"{c.name}.__init__ :: {attr} not normalised")
+    rep.floor(rule, n, 1)
+
+
 def run(prog, rep):
     cd = Codecs(prog)
     cd.flag_errors(rep)
@@ -486,6 +554,7 @@ def run(prog, rep):
                     rep.fail("eq-defined", k.module.path.name, k.name, k.node, f"{k.name} (element of {u.cls.name}.{a}) defines no __eq__", construct=f"class {k.name} :: __eq__")
     rep.floor("eq methods", n_eq, 18)
     rep.attempt(exact_scalars, prog, cd, rep)
+    rep.attempt(exact_arrays_normalised, prog, cd, rep)
     rep.attempt(eq_type_guard, prog, rep)
     rep.attempt(allclose_on_sequences, prog, cd, rep)
     cell_coverage(prog, cd, rep)
